@@ -2288,7 +2288,7 @@ def run(ctx, args):
     if cross_intended is not None:
         intended.append(cross_intended)
     rng = random.Random(1000003 * ctx.seed + (1 if quick else 2))
-    ex = ThreadPoolExecutor(max_workers=3 if quick else 2)  # quick: 3 TLC x 2 workers, thorough: 2 TLC x 4 workers
+    ex = ThreadPoolExecutor(max_workers=4 if quick else 2)  # quick: 4 TLC x 2 workers (7 runs: two rounds), thorough: 2 TLC x 4 workers
     try:
         order = [cross_emit] + emit + coded + intended
         futs = {id(j): ex.submit(j.run, base) for j in order}
